@@ -39,7 +39,8 @@ ASSUMPTIONS = [
     "trusted base: runpp result tables (C01/C02 monitors); bus injections are taken from the element result tables",
     "equality tolerances: vm 1e-6 p.u., va 1e-4 degree, p/q flows and bus powers 1e-4 MVA (measured noise on held cases: 3e-10, 6e-8, "
     "7e-7); power flow solved to 1e-9 MVA, estimator tolerance 1e-6 or 1e-8 on the state update",
-    "observability is certified by construction (spanning-tree assignment of flows/injections, at least one voltage per island; "
+    "observability is certified by construction (spanning-tree assignment of flows/injections, at least one voltage per island, the "
+    "flow into every open-ended line measured at its live end because its internal bus otherwise has the twin solution V = 0; "
     "injection-only sets carry voltage measurements at >= half of the buses); std_dev between 0.1 % and 3 % of the per-unit base",
     "current magnitudes are only added on branch sides that also carry p and q (|I| alone is sign-ambiguous)",
     "Gauss-Newton is a local method and |I| rows make the objective non-convex: if the estimate diverges or stops in another "
@@ -154,6 +155,20 @@ def topology(net):
     return node, edges
 
 
+def open_ended_lines(net, node):
+    """(line, live side) of in-service lines with exactly one end in the energized network"""
+    sw = net.switch
+    opensw = {(int(r.element), int(r.bus)) for r in sw[~sw.closed & (sw.et == "l")].itertuples()}
+    out = []
+    for li, r in net.line[net.line.in_service].iterrows():
+        f, t = int(r.from_bus), int(r.to_bus)
+        f_ok = f in node and (li, f) not in opensw
+        t_ok = t in node and (li, t) not in opensw
+        if f_ok != t_ok:
+            out.append((li, "from" if f_ok else "to"))
+    return out
+
+
 RES = {"line": ("res_line", {"from": ("p_from_mw", "q_from_mvar", "i_from_ka"), "to": ("p_to_mw", "q_to_mvar", "i_to_ka")}),
        "trafo": ("res_trafo", {"hv": ("p_hv_mw", "q_hv_mvar", "i_hv_ka"), "lv": ("p_lv_mw", "q_lv_mvar", "i_lv_ka")}),
        "trafo3w": ("res_trafo3w", {"hv": ("p_hv_mw", "q_hv_mvar", "i_hv_ka"), "mv": ("p_mv_mw", "q_mv_mvar", "i_mv_ka"),
@@ -255,6 +270,13 @@ def build_measurements(net, g, mode, auto_zero=False):
                         n_inj += 1
                     else:
                         return None, {}
+    # open-ended lines (open switch or out-of-service bus at one end) get an internal bus in the calculation whose only information
+    # is a zero-injection pseudo measurement; S = 0 also holds for V = 0 there, so the state is only unique if the flow into the
+    # line is measured at its live end
+    n_open_ended = 0
+    for li, side in open_ended_lines(net, node):
+        add_flow("line", li, side)
+        n_open_ended += 1
     # voltage magnitudes: injection-only sets are badly conditioned and have low-voltage twin solutions unless most buses carry a
     # voltage measurement; flow-based sets need one per island
     for root_key, nodes in islands.items():
@@ -280,7 +302,7 @@ def build_measurements(net, g, mode, auto_zero=False):
     for b in node:
         if g.B(red * 0.5):
             add_v(b)
-    info = {"n_base": n_base, "n_meas": len(meas), "n_inj": n_inj, "n_flow": n_flow, "n_islands": len(islands), "red": red, "n_zero_inj_groups": n_zero,
+    info = {"n_base": n_base, "n_meas": len(meas), "n_inj": n_inj, "n_flow": n_flow, "n_islands": len(islands), "red": red, "n_zero_inj_groups": n_zero, "n_open_ended_lines": n_open_ended,
             "min_island_nodes": min(len(v) for v in islands.values()),
             "n_nodes": len(groups) + len({e[1] for e in edges if isinstance(e[1], tuple) and e[1][0] == "star"})}
     return meas, info
@@ -385,6 +407,33 @@ def raised_in(exc, func_name):
     return name == func_name
 
 
+_T3_DEFECT = []
+
+
+def t3_defect_present(shim):
+    """one-off probe of the running pandapower: does a measurement at the lv side of the second of two three-winding transformers,
+    the first of which has an out-of-service lv bus, end up outside the branch array (the known mapping defect)?"""
+    if not _T3_DEFECT:
+        net = pp.create_empty_network()
+        hv, mv, lv1, lv2 = [pp.create_bus(net, v) for v in (110., 20., 10., 10.)]
+        pp.create_ext_grid(net, hv)
+        for lv in (lv1, lv2):
+            pp.create_transformer3w(net, hv, mv, lv, "63/25/38 MVA 110/20/10 kV")
+            pp.create_load(net, lv, 5., 1.)
+        pp.create_load(net, mv, 10., 2.)
+        net.bus.at[lv1, "in_service"] = False
+        pp.runpp(net)
+        for b in (hv, mv, lv2):
+            pp.create_measurement(net, "v", "bus", net.res_bus.vm_pu.at[b], 0.001, b)
+            pp.create_measurement(net, "p", "bus", net.res_bus.p_mw.at[b], 0.1, b)
+            pp.create_measurement(net, "q", "bus", net.res_bus.q_mvar.at[b], 0.1, b)
+        pp.create_measurement(net, "p", "trafo3w", net.res_trafo3w.p_lv_mw.at[1], 0.1, 1, side="lv")
+        st, res = call(estimate, net, shim)
+        ok = st == "ok" and float(np.abs(net.res_bus_est.vm_pu - net.res_bus.vm_pu).max()) < 1e-6
+        _T3_DEFECT.append(not ok)
+    return _T3_DEFECT[0]
+
+
 def call(fn, net, shim, **kw):
     """returns (status, value): ok / exc"""
     with numpy_shim(shim):
@@ -399,6 +448,10 @@ def build_case(seed):
     g = netgen.G(seed)
     profile = g.C(PROFILES)
     net = netgen.rnd_net(seed, profile, OVR)
+    # lines ending at an out-of-service bus are calculated as open-ended lines whose internal bus cannot be initialised from the
+    # results (no result at the dead bus): out of the domain, the same topology is covered by open line switches
+    oos = set(net.bus.index[~net.bus.in_service.values])
+    net.line.loc[net.line.from_bus.isin(oos) | net.line.to_bus.isin(oos), "in_service"] = False
     no_shift = g.B(0.35)
     if no_shift:
         # without vector-group shifts in net.trafo the estimator does not re-initialise the angles by a DC power flow, so
@@ -522,7 +575,7 @@ def run_case(seed, tier, case_no):
                 tags.add(name + "_" + j[0])
                 return done(skipped=name + ("_not_converged" if j[0] == "fail" else "_other_stationary_point"))
         j = (j[0], j[1] + " (also without current magnitudes / from init='results')")
-    if j is not None and bad_t3:
+    if j is not None and bad_t3 and t3_defect_present(state["shim"]):
         viols.append(common.viol(j[1] + " (measurements on three-winding transformers are assigned to wrong branches)",
                                  mechanism="trafo3w_meas_wrong_branch_when_side_inactive", mismapped=bad_t3, **wit))
         return done()
